@@ -131,6 +131,10 @@ type cluster struct {
 	leaseMutex   sync.RWMutex
 	sessionMutex sync.RWMutex
 
+	// mutexes holds the cluster mutex of every name, see Mutex.
+	mutexes      map[string]*mutex
+	mutexesMutex sync.Mutex
+
 	done chan struct{}
 }
 
